@@ -359,7 +359,7 @@ Definition render_pi (c : choices) (p : list N) (t : str) (d : option str) : str
 
 Fixpoint render_node (c : choices) (p : list N) (x : anode) : str :=
   match x with
-  | AText s => text_chars (S (length s)) c p 0 0 s
+  | AText s => text_chars (S (length s)) c p 0 c_rbr s     (* as if a "]" preceded: a leading ">" is never literal *)
   | ARef nm => entity_ref nm
   | AComment s => render_comment s
   | API t d => render_pi c p t d
@@ -609,6 +609,14 @@ Definition pubid_ok (s : str) : bool :=
   forallb (eval spec_PubidChar) s && negb (contains c_cr s) && negb (contains c_lf s)
   && str_eqb (tok_norm s) s.
 
+(** adjacent character-data children are one child (normal form of the abstract document) *)
+Fixpoint no_adjacent_text (l : list anode) : bool :=
+  match l with
+  | AText _ :: ((AText _ :: _) as t) => false
+  | _ :: t => no_adjacent_text t
+  | [] => true
+  end.
+
 Fixpoint node_ok (x : anode) : bool :=
   match x with
   | AText s => text_ok s
@@ -617,6 +625,7 @@ Fixpoint node_ok (x : anode) : bool :=
   | API t d => pi_ok t d
   | AElem nm atts kids =>
     is_QName nm && forallb (fun a => is_QName (fst a) && items_ok (snd a)) atts && forallb node_ok kids
+    && no_adjacent_text kids
   end.
 Definition misc_ok (x : anode) : bool :=
   match x with AComment _ | API _ _ => node_ok x | _ => false end.
